@@ -204,6 +204,44 @@ def manufacture(rng, alg):
         us = [(y / r).tolist() for y, r in zip(ys, rho)]
         kkt = {"x": xs.tolist(), "z": [z.tolist() for z in zs], "zold": [z.tolist() for z in zs], "u": us}
         return recipe, kkt, xs
+    if alg in ("ladmm", "padmm", "pdhg") and rng.integers(0, 4) == 0:
+        # complex data (fixed-point part): the adjoints are CONJUGATE transposes, B and c general for ProximalADMM
+        cd = lambda sh, b_, sc_: G.dy(rng, sh, b_, sc_) + 1j * G.dy(rng, sh, b_, sc_)  # noqa: E731
+        rl = lambda a_: G.realify(a_, True).tolist()  # noqa: E731
+        cm = lambda M_: {"t": "mat", "M": M_.real.tolist(), "Mi": M_.imag.tolist()}  # noqa: E731
+        p_ = int(rng.integers(1, 5))
+        A = cd((p_, n), 2, 1.5)
+        xs = cd((n,), 2, 1.5)
+        w = _P(rng, [0.5, 1.0, 2.0])
+        a2 = max(float(np.linalg.norm(A, 2) ** 2), 1e-3)
+        if alg == "padmm":
+            m = int(rng.integers(1, 4))
+            B = cd((p_, m), 2, 1.0)
+            lam = cd((p_,), 2, 1.0)
+            rho = _P(rng, [0.5, 1.0, 2.0])
+            zs = -(B.conj().T @ lam) / (2.0 * w)
+            c = A @ xs + B @ zs
+            b2 = max(float(np.linalg.norm(B, 2) ** 2), 1e-3)
+            u = rl(lam / rho)
+            recipe = {"alg": "padmm", "cplx": True, "xshape": [n], "A": cm(A), "B": cm(B), "zshape": [m], "c": rl(c),
+                      "f": {"k": "sqloss", "s": 0.5, "A": None, "yshape": [n], "y": rl(xs + A.conj().T @ lam)},
+                      "g": {"k": "sql2", "w": w}, "rho": rho, "mu": float(np.ceil(1.01 * a2 * 64) / 64),
+                      "nu": float(np.ceil(1.01 * b2 * 64) / 64), "fast": bool(rng.integers(0, 2)), "x0": rl(xs), "z0": rl(zs), "u0": u}
+            return recipe, {"x": rl(xs), "z": rl(zs), "zold": rl(zs), "u": u, "uold": u}, np.asarray(rl(xs))
+        y = 2.0 * w * (A @ xs)
+        f = {"k": "sqloss", "s": 0.5, "A": None, "yshape": [n], "y": rl(xs + A.conj().T @ y)}
+        if alg == "ladmm":
+            nu = _P(rng, [1.0, 2.0, 0.5])
+            mu = float(np.floor(0.9 * nu / a2 * 256) / 256) or 1.0 / 256
+            recipe = {"alg": "ladmm", "cplx": True, "xshape": [n], "C": cm(A), "f": f, "g": {"k": "sql2", "w": w}, "mu": mu,
+                      "nu": nu, "x0": rl(xs)}
+            z = rl(A @ xs)
+            return recipe, {"x": rl(xs), "z": z, "zold": z, "u": rl(nu * y)}, np.asarray(rl(xs))
+        tau = _P(rng, [0.5, 0.25])
+        sigma = float(np.floor(0.9 / (tau * a2) * 256) / 256) or 1.0 / 256
+        recipe = {"alg": "pdhg", "cplx": True, "xshape": [n], "C": cm(A), "nl": None, "f": f, "g": {"k": "sql2", "w": w},
+                  "tau": tau, "sigma": sigma, "alpha": _P(rng, [1.0, 0.5]), "x0": rl(xs), "z0": rl(y)}
+        return recipe, {"x": rl(xs), "xold": rl(xs), "z": rl(y), "zold": rl(y)}, np.asarray(rl(xs))
     if alg == "ladmm":
         g = gen_g(rng)
         C = {"t": "id"} if g["k"] == "nonneg" else gen_lin(rng, n)
@@ -342,7 +380,14 @@ def manufacture(rng, alg):
         L0 = lip * _P(rng, [1.0, 1.5, 2.0])
         recipe = {"alg": alg, "cplx": False, "xshape": [n], "f": f, "g": g, "L0": L0, "x0": xs.tolist(),
                   "pol": {"kind": "base", "real": True}, "_lip": lip, "_m": mstrong}
-        if rng.integers(0, 2):
+        if rng.integers(0, 3) == 0:
+            # the library's own adaptive step-size policies (C16): a KKT point must stay fixed and the iterates must still
+            # reach the minimiser; the monotone quantities that presuppose L >= Lipschitz constant do not apply
+            kind = _P(rng, ["bb", "adaptiveBB", "lineSearch"] + (["robust"] if alg == "apgm" else []))
+            recipe["pol"] = {"kind": kind, "real": True}
+            if kind == "adaptiveBB":
+                recipe["pol"]["kappa"] = 0.5
+        elif rng.integers(0, 2):
             # history: a second solver with the default step-size object and a far too small L0 is constructed afterwards
             # and stays alive; it must not influence this one (see steps_gen.Built)
             recipe["decoy_L0"] = L0 / 16.0
@@ -370,8 +415,13 @@ def fixed_point_case(ctx, model, recipe, kkt):
     post = b.read()
     ignore = ("mem", "fpr", "t", "L")
     fld = G.states_close(kkt, post, rtol=TOL, skip=ignore)
-    m = G.state_from_wire(model.call("step", alg=alg, p=b.p, s=G.state_json(kkt), k=1, mode="spec")[0])
-    fm = G.states_close(kkt, m, rtol=TOL, skip=ignore)
+    if alg in ("pgm", "apgm") and recipe["pol"]["kind"] != "base":
+        # library step-size policies: no model counterpart here; any positive L keeps a KKT point fixed
+        ctx.count(f"fixed-point:{alg}:policy-{recipe['pol']['kind']}")
+        fm = None
+    else:
+        m = G.state_from_wire(model.call("step", alg=alg, p=b.p, s=G.state_json(kkt), k=1, mode="spec")[0])
+        fm = G.states_close(kkt, m, rtol=TOL, skip=ignore)
     if fm is not None:
         # the model (whose spec step provably fixes KKT points) moved: the manufactured point is not KKT -> harness bug
         raise Infra(f"manufactured point is not a fixed point of the model ({alg}, field {fm}): {json.dumps(recipe)[:400]}")
@@ -410,7 +460,9 @@ def trajectory_case(ctx, recipe, kkt, xs, rng, K, check_conv=True):
             r[k] = None
     b = G.Built(r)
     s = b.solver
-    d0 = _dist(G.flat(s.x, False), xs)
+    cx = b.cplx
+    nonbase = alg in ("pgm", "apgm") and recipe["pol"]["kind"] != "base"
+    d0 = _dist(G.flat(s.x, cx), xs)
     case = {"recipe": r, "xstar": xs.tolist(), "steps": K}
     bad = None
     dists, objs, Vs, ts = [d0], [], [], []
@@ -425,16 +477,16 @@ def trajectory_case(ctx, recipe, kkt, xs, rng, K, check_conv=True):
             states.append(b.read())
             if alg == "apgm":
                 fobjs.append(objective_of(b, s.x))
-        x = np.asarray(G.flat(s.x, False))
+        x = np.asarray(G.flat(s.x, cx))
         dists.append(_dist(x, xs))
         if alg == "apgm":
             ts.append(float(s.t))
         if alg == "admm":
-            V = sum(rho * (_dist(G.flat(u, False), us) ** 2 + _dist(G.flat(z, False), zs) ** 2)
+            V = sum(rho * (_dist(G.flat(u, cx), us) ** 2 + _dist(G.flat(z, cx), zs) ** 2)
                     for rho, u, z, us, zs in zip(s.rho_list, s.u_list, s.z_list, kkt["u"], kkt["z"]))
             Vs.append(V)
     tol = lambda v: 1e-9 * (1.0 + abs(v))  # noqa: E731
-    if alg == "pgm":
+    if alg == "pgm" and not nonbase:
         objs.append(objective_of(b, s.x))
         L = float(recipe["L0"])
         q = 1.0 - recipe["_m"] / L
@@ -449,7 +501,7 @@ def trajectory_case(ctx, recipe, kkt, xs, rng, K, check_conv=True):
                 bad = {"quantity": "linear rate (1-m/L)^k", "k": k, "dist_sq": dists[k + 1] ** 2, "bound": q ** (k + 1) * d0**2}
                 break
         ctx.count("monotone:pgm-distance+objective+rate")
-    if alg == "apgm":
+    if alg == "apgm" and recipe["pol"]["kind"] != "robust":
         for k, t in enumerate(ts):
             if t < (k + 3) / 2.0 - 1e-12:
                 bad = {"quantity": "FISTA t_k >= (k+2)/2", "k": k + 1, "t": t}
@@ -468,9 +520,9 @@ def trajectory_case(ctx, recipe, kkt, xs, rng, K, check_conv=True):
     # must have dropped substantially
     if bad is None and check_conv:
         target = 0.05 * d0 + 1e-7
-        if alg == "pgm":
+        if alg == "pgm" and not nonbase:
             target = float("inf")  # the proved rate bound above is the criterion
-        if alg == "apgm":
+        if alg == "apgm" and not nonbase:
             qq = 1.0 - recipe["_m"] / float(recipe["L0"])
             target = max(0.05, 2.0 * qq ** (K / 2.0)) * d0 + 1e-7
         # no rate is claimed for these classes (only convergence is a theorem): slowly converging instances (large rho,
@@ -480,14 +532,14 @@ def trajectory_case(ctx, recipe, kkt, xs, rng, K, check_conv=True):
             for _ in range(K):
                 s.step()
             extra += K
-            dists.append(_dist(np.asarray(G.flat(s.x, False)), xs))
+            dists.append(_dist(np.asarray(G.flat(s.x, cx)), xs))
         if extra:
             ctx.count("convergence:extended-budget")
         if dists[-1] > target and d0 > 0:
             bad = {"quantity": "distance to the manufactured minimiser after %d steps" % (K + extra), "start": d0,
                    "end": dists[-1], "required": target}
-        ctx.count(f"convergence:{alg}")
-    if not common.allclose(G.flat(s.minimizer(), False), G.flat(s.x, False), rtol=0.0):
+        ctx.count(f"convergence:{alg}" + (":policy-" + recipe["pol"]["kind"] if nonbase else "") + (":complex" if cx else ""))
+    if not common.allclose(G.flat(s.minimizer(), cx), G.flat(s.x, cx), rtol=0.0):
         bad = {"quantity": "minimizer() is x"}
     if bad is not None:
         bad.update({"class": type(s).__name__, "recipe": r, "xstar": xs.tolist()})
@@ -509,7 +561,11 @@ def lyapunov_monitors(ctx, recipe, kkt, xs, states, fobjs, b):
     checked from the first iterate on (k >= 1: states produced by step(), the hypothesis of the theorems), PDHG from k = 0.
     Returns a failing-input dict or None."""
     alg = recipe["alg"]
-    n = len(xs)
+    cx = bool(recipe.get("cplx"))
+    n = len(xs) // 2 if cx else len(xs)  # xs is in the model representation (complex data: interleaved re / im)
+    dense = lambda rec, sh: np.asarray(G.realify_mat(G.op_dense(rec, sh)[0], cx), dtype=np.float64)  # noqa: E731
+    if alg in ("pgm", "apgm") and recipe["pol"]["kind"] != "base":
+        return None  # the monotone quantities presuppose the constant step size 1/L, L >= Lipschitz constant
     tol = lambda v: 1e-8 * (1.0 + abs(v))  # noqa: E731
     A_ = lambda k: np.asarray(k, dtype=np.float64)  # noqa: E731
     # strong-monotonicity modulus of grad f (f = s ||x - y0||^2 : 2 s); 0 when f is not of that form (plain convexity)
@@ -517,7 +573,7 @@ def lyapunov_monitors(ctx, recipe, kkt, xs, states, fobjs, b):
     m_f = 2.0 * float(fr["s"]) if fr.get("k") == "sqloss" and fr.get("A") is None and fr.get("W") is None else 0.0
     if alg == "admm" and 0.0 < recipe["alpha"] < 2.0:
         al = float(recipe["alpha"])
-        Ms = [np.asarray(G.op_dense(c, [n])[0], dtype=np.float64) for c in recipe["C"]]
+        Ms = [dense(c, [n]) for c in recipe["C"]]
         rho = [float(r) for r in recipe["rho"]]
         m = m_f
         zs = [A_(z) for z in kkt["z"]]
@@ -541,7 +597,7 @@ def lyapunov_monitors(ctx, recipe, kkt, xs, states, fobjs, b):
                     return {"quantity": "ADMM residual bounds |z+-z| <= a|Cx+-z|, |Cx+-z+| <= (1+a)|Cx+-z|", "k": k, "q": q}
         ctx.count("monotone:admm-relaxed-W-alpha%s" % ("=1" if al == 1.0 else "!=1"))
     if alg == "pdhg" and recipe.get("nl") is None and recipe["alpha"] == 1.0:
-        M = np.asarray(G.op_dense(recipe["C"], [n])[0], dtype=np.float64)
+        M = dense(recipe["C"], [n])
         tau, sig = float(recipe["tau"]), float(recipe["sigma"])
         zs = A_(kkt["z"])
 
@@ -558,9 +614,9 @@ def lyapunov_monitors(ctx, recipe, kkt, xs, states, fobjs, b):
                         "M_after": Mn(a1, b1)}
         ctx.count("monotone:pdhg-fejer-M")
     if alg == "padmm":
-        MA = np.asarray(G.op_dense(recipe["A"], [n])[0], dtype=np.float64)
+        MA = dense(recipe["A"], [n])
         p = MA.shape[0]
-        MB = -np.eye(p) if recipe["B"] is None else np.asarray(G.op_dense(recipe["B"], recipe["zshape"])[0], dtype=np.float64)
+        MB = -np.eye(p) if recipe["B"] is None else dense(recipe["B"], recipe["zshape"])
         rho, mu, nu = float(recipe["rho"]), float(recipe["mu"]), float(recipe["nu"])
         zs, us = A_(kkt["z"]), A_(kkt["u"])
         nP = lambda a: rho * (mu * _sq(a) - _sq(MA @ a))  # noqa: E731
@@ -579,7 +635,7 @@ def lyapunov_monitors(ctx, recipe, kkt, xs, states, fobjs, b):
                         "dissipation": diss}
         ctx.count("monotone:padmm-lyapunov-" + ("defaultB" if recipe["B"] is None else "generalB"))
     if alg == "ladmm":
-        M = np.asarray(G.op_dense(recipe["C"], [n])[0], dtype=np.float64)
+        M = dense(recipe["C"], [n])
         mu, nu = float(recipe["mu"]), float(recipe["nu"])
         us = A_(kkt["u"])
         zs = M @ xs
@@ -635,8 +691,9 @@ def one(ctx, model, rng, alg, recipe, kkt, xs, traj, tag):
     # non-linear C / H make the problem non-convex: only the fixed-point part of the property applies
     nonconvex = False
     if alg == "admm" and recipe.get("cplx"):
-        traj, nonconvex = False, True  # fixed-point part only (the trajectory monitors are written for real data)
         ctx.count("admm.complex-mixed-matrix-solver")
+    if recipe.get("cplx"):
+        ctx.count(f"complex-data:{alg}")
     if recipe.get("decoy_L0") is not None:
         ctx.count("history:second-solver-with-default-step-size-alive")
     if alg == "pdhg" and recipe.get("nl") is not None:
@@ -647,6 +704,8 @@ def one(ctx, model, rng, alg, recipe, kkt, xs, traj, tag):
     d0 = None
     if ok and traj:
         K = BUDGET[alg] if ctx.thorough else max(40, BUDGET[alg] // 4)
+        if alg in ("pgm", "apgm") and recipe["pol"]["kind"] != "base":
+            K = 40  # the library's line searches run un-jitted Python per step
         d0 = trajectory_case(ctx, recipe, kkt, np.asarray(xs, dtype=np.float64), rng, K)
     elif ok and not nonconvex:
         # short trajectory: only the proved one-step inequalities (Lyapunov / Fejer / rate), no convergence budget
